@@ -883,3 +883,34 @@ CHECKS["C11"].update({
     "technique": ("Lean 4 proof over the builder model (exactness from the specification's rules, permutation, rejection classes, public "
                   "extend_schema strict/lax) + schema-dump correspondence + declared-content and labelled-defect oracles"),
 })
+# ---------------------------------------------------------------------------------------------------------------
+# State after the builder round co3 (repairs after the independent audit: audits/1.md C07-F1 / C07-F2, audits/2.md finding 3).
+# ---------------------------------------------------------------------------------------------------------------
+CHECKS["C07"]["text"] = CHECKS["C07"]["text"].rstrip() + (
+    " AUDIT REPAIR (co3): the hypothesis RegOK was FALSE for every registry holding an SDL custom scalar (CustomOK admitted the literal `null`, "
+    "which the stand-in scalar answers with None, against RegOK.customNotNone): every soundness theorem was vacuous for such schemas (audit C07-F1). "
+    "CustomOK now speaks only of the inputs value_from_ast really hands a scalar's parser (a non-null JSON value; a literal other than `null` / `$x`); "
+    "all soundness theorems are re-proved with the STRONGER Conforms and the WEAKER hypothesis. customNotNone_default / customNotNone_ofTypes / "
+    "customNotNone_regOfSchema PROVE the hypothesis for the stand-in scalar (whatever the extracted flags), regOK_ofTypes_iff / regOK_regOfSchema_iff "
+    "reduce RegOK of the registries the library builds to the four conditions on the declared types, regOK_satisfiable_with_default_scalar is the "
+    "non-vacuity witness (scalar Any, enum, input object with the scalar at nullable / non-null / list-item positions and a declared default), "
+    "customNotNone_still_excludes shows the condition still excludes a user scalar answering None. VarsFit / VarsAllowed got the constructor scalarPos "
+    "(a list / object literal at a custom-scalar position: audit C07-F2, the hypotheses were underivable there). One theorem per headline "
+    "(variable_sound, _total, literal_sound, _total, variables_sound, arguments_sound, validated_arguments_sound, every_validated_call_conforms, "
+    "every_validated_call_conforms_tree: *_applies_with_default_scalar, Props/C07_regok_apps.lean) discharges ALL its hypotheses on that registry and "
+    "concludes about a value the stand-in produced; the named probe regok-witness (corr/C07_regok.py) runs the same inputs through build_schema / "
+    "graphql_blocking / coerce_value / value_from_ast / coerce_argument_values and probes customNotNone on the live default_scalar.")
+CHECKS["C07"]["note"] = CHECKS["C07"].get("note", "").rstrip() + (
+    " Still open from the audit: F3 (VarsAllowed / ArgsOK / RegTypesOK are not derived from the validator and schema-validation models), F4 (the "
+    "'no resolver call' theorems unfold C07's own trace executor), F5 (inline = variable at function level only), F6, F7, F8.")
+CHECKS["C15"]["text"] = CHECKS["C15"]["text"].rstrip() + (
+    " AUDIT REPAIR (co3, audits/2.md finding 3): default_parses_partial reads the text back with the PRIVATE reader readLit, which is laxer than the "
+    "grammar (readLit_laxer_than_grammar: `1.e+-`, `{a:1.}` are read by it and refused by the lexer model and by the real parse_value). "
+    "Props/C15_grammar.lean restates the clause against the VERIFIED lexer + parser model (Parse.parseValueText = C01's lexAll then C02's parseValue) "
+    "and at the VALUE level through C07's valueFromAst on Exec.regOfSchema: DefaultParsesGrammarStatement / FormatDefaultParsesGrammarStatement (full, "
+    "OPEN), default_parses_grammar_instances_partial (27 literals: every kind, escapes, nesting), format_default_parses_grammar_instances_partial, "
+    "default_value_roundtrip_instances_partial (enum member with internal value 1 reported as B and read back as 1, [B, A], input object, string with "
+    "LF, ID, null), DefaultValueRoundTripStatement REFUTED by default_value_roundtrip_refuted_custom_scalar (a NUMBER default at the stand-in scalar "
+    "is reported as `5` and reads back as the text '5': known finding I22, C07's A10 seen from introspection; reproduced by the named probe "
+    "grammar-witnesses, which also checks that the reported texts of the Lean instances are the real ones). The general induction over printLit "
+    "against the fuelled lexer is NOT proved.")
